@@ -53,7 +53,7 @@ func (s *socket) RecvMsg(e any) (msg unixsocket.Msg, err error) {
 	if err := s.decoder.Decode(e); err != nil {
 		return msg, fmt.Errorf("recv msg: decode: %w", err)
 	}
-	verifMsg("recv", e)
+	verifMsg(s, "recv", e)
 	return msg, nil
 }
 
@@ -66,7 +66,7 @@ func (s *socket) SendMsg(e any, msg unixsocket.Msg) error {
 		return fmt.Errorf("send msg: payload too large: %d > %d", s.sendBuff.Len(), bufferSize)
 	}
 
-	verifMsg("send", e) // logged before it leaves, so that an endpoint's log is causally ordered
+	verifMsg(s, "send", e) // logged before it leaves, so that an endpoint's log is causally ordered
 	if err := s.Socket.SendMsg(s.sendBuff.Bytes(), msg); err != nil {
 		return fmt.Errorf("send msg: %w", err)
 	}
